@@ -64,9 +64,20 @@ class Explorer:
 
     # -- solver access
     def check(self, *extra):
+        """feasibility of the asserted context plus `extra`.  push/add/check/pop, NOT check(assumptions): with a
+        non-literal assumption z3 falls back to a core that is very weak on non-linear arithmetic (a degree-4 inequality
+        went from `unknown` after 10 s to `sat` in 1 s)"""
         t = time.time()
         self.nq += 1
-        r = self.solver.check(*extra)
+        if extra:
+            self.solver.push()
+            try:
+                self.solver.add(*extra)
+                r = self.solver.check()
+            finally:
+                self.solver.pop()
+        else:
+            r = self.solver.check()
         self.tq += time.time() - t
         return r
 
@@ -365,6 +376,14 @@ class SB:
     def logical_not(self):
         return SB(z3.Not(self.b))
 
+    def __int__(self):          # int(cond) forks like `if cond`
+        return int(bool(self))
+
+    __index__ = __int__
+
+    def __float__(self):
+        return float(bool(self))
+
     def any(self, *a, **k):     # np.bool_ protocol
         return self
 
@@ -533,10 +552,18 @@ class SV:
         num = self.v if o.d is None else self.v * o.d
         den = _dmul(self.d, o.v)
         sn = z3.simplify(den)
+        if z3.is_rational_value(sn) and sn.numerator_as_long() == 0:
+            # x / 0: NaN if an operand already is NaN (blanked value), otherwise +-inf, which is not modelled
+            if z3.is_true(z3.simplify(_or(self.nan, o.nan))):
+                return SV(z3.RealVal(0), TRUE)
+            raise ShimGap("division by the constant 0 (infinite result is not modelled)")
         if z3.is_rational_value(sn):   # constant divisor: keep the term division-free
             rc = Fraction(sn.denominator_as_long(), sn.numerator_as_long())
-            return SV(num * z3.Q(rc.numerator, rc.denominator), _or(self.nan, o.nan), nn=self.nn and rc > 0 and o.dp
-                      and self.d is None)
+            cq = SV(z3.Q(rc.numerator, rc.denominator), nn=rc > 0)
+            r = SV(num * cq.v, _or(self.nan, o.nan), nn=self.nn and rc > 0 and o.dp and self.d is None)
+            if self.sq is not None and self.d is None and o.d is None:
+                r.sq = _sq_mul(self, cq)       # (c * sqrt(x))^2 = c^2 x
+            return r
         # a/(b.v/b.d) = a.v*b.d / (a.d*b.v): positive denominator iff a.d > 0 and b.v > 0
         return SV(num, _or(self.nan, o.nan), d=den, nn=self.nn and o.nn and o.dp, dp=self.dp and o.nn and o.dp,
                   sq=_sq_div(self, o))
@@ -794,6 +821,10 @@ class SC:
         if o.d is not None:
             re, im = re * o.d, im * o.d
         sn = z3.simplify(n2)
+        if z3.is_rational_value(sn) and sn.numerator_as_long() == 0:
+            if z3.is_true(z3.simplify(_or(self.nan, o.nan))):
+                return SC(z3.RealVal(0), z3.RealVal(0), TRUE)
+            raise ShimGap("complex division by the constant 0")
         if z3.is_rational_value(sn):
             rc = z3.Q(sn.denominator_as_long(), sn.numerator_as_long())
             return SC(re * rc, im * rc, _or(self.nan, o.nan), d=self.d, dp=self.dp)
@@ -941,6 +972,9 @@ def ite(c, a, b):
 NAN = float("nan")
 
 
+SOM_BLOWUP = 20000   # bound on the rewriter's sum-of-monomials expansion (it has no timeout of its own)
+
+
 def differs(a, b):
     """z3 Bool: a and b differ (or either is NaN) — inverse-free (cross-multiplied)"""
     a, b = lift(a), lift(b)
@@ -952,7 +986,7 @@ def differs(a, b):
     diff = a.v * bd - b.v * ad
     try:
         # z3's rewriter in sum-of-monomials mode settles polynomial identities by normalisation
-        nf = z3.simplify(diff, som=True, som_blowup=10 ** 7)
+        nf = z3.simplify(diff, som=True, som_blowup=SOM_BLOWUP)
         if z3.is_rational_value(nf) and nf.numerator_as_long() == 0:
             return _or(a.nan, b.nan)
         return _or(a.nan, b.nan, nf != 0)
